@@ -94,7 +94,10 @@ int libwifi_parse_radiotap_info(struct libwifi_radiotap_info *info, const unsign
                 }
                 break;
             case IEEE80211_RADIOTAP_ANTENNA:
-                info->antennas[info->antenna_count - 1].antenna_number = *it.this_arg;
+                // Names the antenna of the most recent per-antenna signal, if there has been one
+                if (info->antenna_count > 0) {
+                    info->antennas[info->antenna_count - 1].antenna_number = *it.this_arg;
+                }
                 break;
             case IEEE80211_RADIOTAP_DBM_ANTNOISE:
                 break;
